@@ -474,11 +474,55 @@ class Evaluator:
         return T("slice", n, mod, lo=f(n.lower), hi=f(n.upper), step=f(n.step))
 
     def e_Subscript(self, n, sc, mod):
-        obj = self.ev(n.value, sc, mod)
+        obj = None
+        if isinstance(n.value, ast.Name) and sc.lookup(n.value.id) is None:
+            obj = self._module_table(n.value, mod)
+        if obj is None:
+            obj = self.ev(n.value, sc, mod)
         idx = self.ev(n.slice, sc, mod)
         return self.subscript(obj, idx, n, mod)
 
+    def _module_table(self, name_node, mod):
+        """the dict term of a module-level NAME = {<constant key>: value, ...} that is bound once and never written to
+        in its module: a look-up in such a dispatch table reads like the selected entry"""
+        r = self.repo.resolve(mod, name_node.id)
+        if getattr(r, "kind", None) != "repo" or getattr(r, "okind", None) != "assign" or not isinstance(r.node, ast.Dict):
+            return None
+        key = ("table", id(r.node))
+        hit = self._const_cache.get(key)
+        if hit is not None:
+            return hit[1]
+        out = None
+        d = r.node
+        if d.keys and all(isinstance(k, ast.Constant) for k in d.keys) and len(r.mod.top.get(r.name, [])) == 1:
+            written = False
+            for x in ast.walk(r.mod.tree):
+                if isinstance(x, ast.Subscript) and isinstance(x.ctx, (ast.Store, ast.Del)) and isinstance(x.value, ast.Name) and x.value.id == r.name:
+                    written = True
+                elif isinstance(x, ast.Attribute) and isinstance(x.value, ast.Name) and x.value.id == r.name and x.attr in ("update", "pop", "popitem", "setdefault", "clear", "__setitem__", "__delitem__"):
+                    written = True
+                elif isinstance(x, ast.Global) and r.name in x.names:
+                    written = True
+            if not written:
+                out = self.ev(d, Scope(), r.mod)
+        self._const_cache[key] = (r.node, out)
+        return out
+
     def subscript(self, obj, idx, n, mod):
+        # positions counted from the end written with len(): xs[len(xs) - 1] is xs[-1], xs[:len(xs) - 1] is xs[:-1]
+        def from_end(i):
+            if i.op == "bin" and i.opname == "Sub" and i.r.op == "const" and type(i.r.value) is int and i.r.value > 0:
+                l = i.l
+                if l.op == "call" and l.fn.op == "ref" and l.fn.ref.qual == "builtins.len" and len(l.args) == 1 and not l.kw and l.args[0] is obj:
+                    return const(-i.r.value, i.node)
+            return i
+
+        if idx.op == "slice":
+            lo, hi = from_end(idx.lo), from_end(idx.hi)
+            if lo is not idx.lo or hi is not idx.hi:
+                idx = T("slice", idx.node, idx.mod, lo=lo, hi=hi, step=idx.step)
+        else:
+            idx = from_end(idx)
         # indexing the positional-argument tuple of the primitive
         if obj.op == "rest":
             if idx.op == "const" and isinstance(idx.value, int) and idx.value >= 0:
@@ -489,6 +533,16 @@ class Evaluator:
         if obj.op in ("tuple", "list") and idx.op == "const" and isinstance(idx.value, int):
             if not any(e.op == "star" for e in obj.elts) and -len(obj.elts) <= idx.value < len(obj.elts):
                 return obj.elts[idx.value]
+        if obj.op == "dict" and not obj.get("dstar") and obj.items and all(k is not None and k.op == "const" for k, _ in obj.items):
+            keys = [k.value for k, _ in obj.items]
+            if idx.op == "const":
+                hits = [v for k, v in obj.items if type(k.value) is type(idx.value) and k.value == idx.value]
+                if len(hits) == 1:
+                    return hits[0]
+            elif len(keys) == 2 and all(type(k) is bool for k in keys) and set(keys) == {True, False}:
+                # a two-entry table keyed by a truth value is a conditional expression
+                by = {k.value: v for k, v in obj.items}
+                return T("if", n, mod, cond=idx, then=by[True], other=by[False])
         return T("sub", n, mod, obj=obj, idx=idx)
 
     def e_Lambda(self, n, sc, mod):
@@ -545,7 +599,15 @@ class Evaluator:
             else:
                 kw[k.arg] = self.ev(k.value, sc, mod)
         dst = kw.pop("**", None)
+        if fn.op == "if":
+            # (A if c else B)(args): the call distributes over the conditional callee
+            mk = lambda f_: T("call", n, mod, fn=f_, args=list(args), kw=dict(kw), dstar=list(dst or []), ctx=self._ctx)
+            return T("if", n, mod, cond=fn.cond, then=mk(fn.then), other=mk(fn.other))
         t = T("call", n, mod, fn=fn, args=args, kw=kw, dstar=dst or [], ctx=self._ctx)
+        # dict(<pairs produced by a comprehension>) is the dict comprehension of those pairs
+        if fn.op == "ref" and fn.ref.qual == "builtins.dict" and len(args) == 1 and not kw and not dst and args[0].op == "comp" and args[0].get("kind") in ("GeneratorExp", "ListComp") and args[0].elt.op == "tuple" and len(args[0].elt.elts) == 2:
+            c0 = args[0]
+            return T("comp", n, mod, elt=c0.elt, src=c0.src, conds=list(c0.conds), kind="DictComp")
         # functools.partial(f, a, b) -> partial value
         if fn.op == "ref" and fn.ref.qual == "functools.partial" and args:
             return T("partial", n, mod, fn=args[0], args=args[1:], kw=kw)
@@ -717,18 +779,39 @@ class Evaluator:
                 it = self.ev(st.iter, sc, mod) if isinstance(st, ast.For) else None
                 for nm in names:
                     sc.vars[nm] = T("loopvar", st, mod, name=nm, init=init[nm])
+                lvs_ = {nm: sc.vars[nm] for nm in names}
+                guards = []
                 if isinstance(st, ast.For):
-                    self.bind_target(st.target, T("iterelem", st.iter, mod, src=it), sc, mod)
+                    # for t in (E(x) for x in S if C): body   ==   for x in S: if C: t = E(x); body
+                    it0 = it
+                    while it0.op == "seq":
+                        it0 = it0.value
+                    if it0.op == "comp" and it0.get("kind") == "GeneratorExp" and isinstance(it0.node, ast.GeneratorExp) and len(it0.node.generators) == 1:
+                        # (a list comprehension is built eagerly, before the loop starts: it stays the loop's source)
+                        it, elem, guards = it0.src, it0.elt, list(it0.conds)
+                    else:
+                        elem = T("iterelem", st.iter, mod, src=it)
+                    self.bind_target(st.target, elem, sc, mod)
                     cond = None
                 else:
                     cond = self.ev(st.test, sc, mod)
                 r = self.run(_desugar_continue(list(st.body)), sc, mod)
+                if guards:
+                    gc = guards[0] if len(guards) == 1 else T("bool", st, mod, opname="and", vals=guards)
+                    for nm in names:
+                        if sc.vars.get(nm) is not None:
+                            sc.vars[nm] = T("if", st, mod, cond=gc, then=sc.vars[nm], other=lvs_[nm])
                 for nm in names:
                     nxt = sc.vars.get(nm)
                     lp = T(
                         "loop", st, mod, name=nm, init=init[nm] if init[nm] is not None else unknown(f"unbound:{nm}"), next=nxt, it=it, cond=cond
                     )
                     self.loops.append(lp)
+                    sp = _split_tuple_state(lp) if r is None else None
+                    if sp is not None:
+                        self.loops.extend(sp.elts)
+                        sc.vars[nm] = sp
+                        continue
                     sc.vars[nm] = _canon_loop(lp) if r is None else lp
                 if r is not None:
                     r2 = self.run(rest, sc, mod)
@@ -778,7 +861,24 @@ class Evaluator:
         old = sc.lookup(name)
         if old is None:
             return
-        sc.vars[name] = T("grow", n, mod, obj=old, val=v.args[0], how=how)
+        new = T("grow", n, mod, obj=old, val=v.args[0], how=how)
+        sc.vars[name] = new
+        # the same object reached through other local names: a plain alias (b = a) sees the grown container; a tuple
+        # that holds it (state = (xs, n); xs, n = state; xs.append(e)) has that component grown
+        seen_names = set()
+        s_ = sc
+        while s_ is not None:
+            for bname, bval in list(s_.vars.items()):
+                if bname == name or bname in seen_names or bval is None:
+                    continue
+                seen_names.add(bname)
+                if bval is old:
+                    s_.vars[bname] = new
+                elif old.op == "sub" and old.obj is bval and old.idx.op == "const" and type(old.idx.value) is int:
+                    s_.vars[bname] = T("store", n, mod, obj=bval, idx=old.idx, val=new)
+                elif bval.op in ("tuple", "list") and any(e is old for e in bval.elts) and old.op in ("list", "set", "dict", "grow", "call", "comp"):
+                    s_.vars[bname] = T(bval.op, bval.node, bval.mod, elts=[new if e is old else e for e in bval.elts])
+            s_ = s_.parent if s_.parent is not None and s_ is not sc else None
 
     def _raising_helper(self, n, v):
         """the inlined result of an expression-statement call to a repo helper whose own body raises on some path
@@ -1274,6 +1374,62 @@ def _canon_loop(lp):
         if x.op == "loopvar" and x.name == lp.name and x.node is lp.node:
             return lp
     return T("comp", lp.node, lp.mod, elt=elt, src=lp.it, conds=conds, kind=kind, from_loop=True)
+
+
+class _NoSplit(Exception):
+    pass
+
+
+def _split_tuple_state(lp):
+    """state = (a0, b0, ..); loop: state = (a', b', ..) | state | state-with-one-component-replaced, the state read only
+    through state[i] / unpacking: the loop of the tuple is the tuple of the loops of its components"""
+    init = lp.init
+    if init is None or init.op != "tuple" or not init.elts or any(e.op == "star" for e in init.elts) or lp.next is None:
+        return None
+    k = len(init.elts)
+    me = lambda x: x.op == "loopvar" and x.name == lp.name and x.node is lp.node
+    LV = [T("loopvar", lp.node, lp.mod, name=f"{lp.name}.{i}", init=init.elts[i]) for i in range(k)]
+    memo = {}
+
+    def conv(t):
+        if t is None:
+            return None
+        key = id(t)
+        if key in memo:
+            return memo[key][1]
+        if me(t):
+            raise _NoSplit()
+        if t.op == "sub" and me(t.obj) and t.idx.op == "const" and type(t.idx.value) is int and 0 <= t.idx.value < k:
+            r = LV[t.idx.value]
+        else:
+            from .tutil import rebuild
+
+            r = rebuild(t, conv)
+        memo[key] = (t, r)
+        return r
+
+    def comp_i(t, i):
+        if t.op == "if":
+            return T("if", t.node, t.mod, cond=conv(t.cond), then=comp_i(t.then, i), other=comp_i(t.other, i))
+        if t.op == "seq":
+            return T("seq", t.node, t.mod, effects=[conv(e) for e in t.effects], value=comp_i(t.value, i))
+        if t.op == "tuple" and len(t.elts) == k and not any(e.op == "star" for e in t.elts):
+            return conv(t.elts[i])
+        if me(t):
+            return LV[i]
+        if t.op == "store" and t.idx.op == "const" and type(t.idx.value) is int and 0 <= t.idx.value < k:
+            return conv(t.val) if t.idx.value == i else comp_i(t.obj, i)
+        raise _NoSplit()
+
+    try:
+        cond = conv(lp.get("cond")) if lp.get("cond") is not None else None
+        loops = []
+        for i in range(k):
+            l_i = T("loop", lp.node, lp.mod, name=f"{lp.name}.{i}", init=init.elts[i], next=comp_i(lp.next, i), it=lp.get("it"), cond=cond)
+            loops.append(_canon_loop(l_i))
+    except _NoSplit:
+        return None
+    return T("tuple", lp.node, lp.mod, elts=loops)
 
 
 def _flatten_pos(args):
